@@ -221,7 +221,7 @@ pub fn run() {
     for (k, v) in &counters {
         rep.set(&format!("activations_{k}"), *v);
     }
-    rep.set("rule", "component: explicit-state BFS over {insert, get, get_mut, peek, remove, purge, len, idle 4 s / 7 s} on the real LruTimeCache (ttl 10 s, capacity 1..3, 3 keys) against a list reference; handler: explicit-state BFS over every interleaving of request submissions in both directions with idle periods of 99 s / 101 s (session timeout 100 s) on 2–4 real handlers, and every order of session establishment with capacity 1 / 2; wire + bookkeeping oracle (no message encrypted or accepted under a session idle for longer than the timeout; sessions ≤ capacity; victim = least recently used)");
+    rep.set("rule", "component: explicit-state BFS over {insert, get, get_mut, peek, remove, purge, len, idle 4 s / 7 s} on the real LruTimeCache (ttl 10 s, capacity 1..3, capacity + 1 keys — at least 3) against a list reference; handler: explicit-state BFS over every interleaving of request submissions in both directions with idle periods of 99 s / 101 s (session timeout 100 s) on 2–4 real handlers, and every order of session establishment with capacity 1 / 2; wire + bookkeeping oracle (no message encrypted or accepted under a session idle for longer than the timeout; sessions ≤ capacity; victim = least recently used)");
     rep.assume("idle periods are taken only while nothing is in flight (no request or challenge timer pending)");
     for v in found {
         rep.violation(v);
